@@ -190,13 +190,13 @@ NA = {}
 ADDED = {
  "C02": " Also: the units the additive operators compare are those the operand expressions denote (C02-R7 = the unit rules of ^ and of * / with a plain number); the `to` arm is decided on the summary of eval::eval on an OPERATION node (helpers followed).",
  "C03": " Also: prefix words add exactly their SI exponent and unit scales equal the reference table (C03-R8 = C05-R1/R2, two known unit-table defects listed); only commensurable units convert (C03-R9 = C02-R6).",
- "C04": " Also: every mix of * / ^ is grouped as the grammar prescribes (C04-R8 = C06-R1/R6); a unit is re-derived on the value of the operand it came from (C04-R9); every dimension table is linear in the power (C04-R6); the exponent of a displayed unit is the decimal digits of the computed power in superscript (C04-R7: digit table, digit-function arguments proved <= 9, boundary exponents).",
- "C06": " Also: whatever token starts a value, the blanks in front of it are skipped before any checkpoint is taken, so they stay outside its node (C06-R5); the evaluator folds every operator of a group left to right, a `to` in a chain included (C06-R8 = C01-R6, summary of eval::eval on OPERATION nodes with two and three operators).",
+ "C04": " Also: the value of a power, 1 for exponent 0 whatever the base (C04-R10 = the pow clauses of C01-R4); every mix of * / ^ is grouped as the grammar prescribes (C04-R8 = C06-R1/R6); a unit is re-derived on the value of the operand it came from (C04-R9); every dimension table is linear in the power (C04-R6); the exponent of a displayed unit is the decimal digits of the computed power in superscript (C04-R7: digit table, digit-function arguments proved <= 9, boundary exponents).",
+ "C06": " Also: a run of blanks is one WHITESPACE token (C06-R7: where the token ends the next character was looked at and is not a blank); whatever token starts a value, the blanks in front of it are skipped before any checkpoint is taken, so they stay outside its node (C06-R5); the evaluator folds every operator of a group left to right, a `to` in a chain included (C06-R8 = C01-R6, summary of eval::eval on OPERATION nodes with two and three operators).",
  "C07": " Also: a percent literal is its own decimal text / 100 (C07-R6 = C01-R5).",
  "C09": " Also: the power guard sees the real power (C09-R5 = C04-R1/R5). The direction parameter of apply_conversion is found by behaviour (bool or enum).",
  "C10": " Also: a negative digits argument is one literal in every argument position - the lexer never looks at the text before the current position (C10-R8 = C12-R10).",
  "C12": " Also: the lexer reads the text forwards only (C12-R10); the parser primitives consume exactly what they promise (C12-R7 = C06-R4); every slice of the text runs between positions the lexer reached (C12-R8 = C11-R1's index obligations for syntax::*); parse() hands the parser the very text it keeps for the spans (C12-R9).",
- "C13": " Also: unit maps never keep cancelled entries, so equal quantities have equal representations (C13-R6 = C02-R1); a*b = b*a also with offset scales: each operand's units are re-derived on its own value (C13-R7 = C04-R9, found a defect, repaired in 42759a9).",
+ "C13": " Also: unit maps never keep cancelled entries, so equal quantities have equal representations (C13-R6 = C02-R1); a*b = b*a also with offset scales: each operand's units are re-derived on its own value (C13-R7 = C04-R9, found a defect, repaired in 42759a9); a / a = 1: the divisor's zero test is made on the normalised value and dominates the division (C13-R8 = the div clauses of C01-R4).",
  "C14": " Also: one segment per build - no function on an asset's loading path commits, merges or opens a writer (C14-R6); a re-opened index is a complete index of this build's data (C14-R7 = C15-R3/R4/R7: marker never outlives the index, trust only behind version equality, the hash covers every asset).",
  "C16": " Also: every kind of session serves a built index (C16-R8 = C15-R3/R4/R6); a constant's source id resolves through the id->index map built from the decoded list (C16-R9); every session that starts has loaded the sources (C16-R8); the constant reported for a phrase is the matched constant unchanged (C16-R10 = C18-R2).",
  "C15": " Also: open_index passes on an error only after a failed file-system change (an index that cannot be opened is rebuilt); open_index decides from the marker as read from disk; the index is created only in a wiped or absent directory; every session loads the sources; the hash that is compared covers the version and every existing asset's name and content (C15-R7, effect summary of Config::hash_assets).",
